@@ -45,6 +45,33 @@ def main():
     # simulation: whole-loop scenarios; requests at any timing; races of the latency window with fills / suspension lapses / removals / close
     scs = [simgen.gen_scenario(rng, {"kinds": ["L"] * 8 + ["LOC", "MOC"], "p_manage": 0.75, "p_susp": 0.3, "p_inplay": 0.2, "p_remove": 0.08, "p_fok": 0.15}) for _ in range(800 if thorough else 200)]
     simcheck.run_family(ck, "simulation_histories", scs, propcheck.c03, "C03", "sim")
+    # requests batched in one transaction per strategy call, sent in several instalments (explicit execute() calls between requests, the rest
+    # at the end of the block): the implementation alone with the lifecycle checker (the model has one package per request)
+    scs4 = []
+    for _ in range(400 if thorough else 100):
+        s4 = simgen.gen_scenario(rng, {"kinds": ["L"], "p_manage": 0.7, "p_place": 0.8, "p_remove": 0.0, "no_remove": True, "p_fok": 0.0, "nmarkets": [1], "nstrats": [1, 2]})
+        for e in s4["script"]:
+            acts = [["txn_begin"]]
+            for a in e["acts"]:
+                acts.append(a)
+                if rng.random() < 0.4:
+                    acts.append(["txn_exec"])
+            acts.append(["txn_end"])
+            e["acts"] = acts
+        scs4.append(s4)
+    o4 = run_impl_parallel("simlib", [{"scenarios": [simgen.to_impl(x) for x in ch], "observe": "all"} for ch in chunked(scs4, 20)], timeout=3600)
+    i4 = [r for o in o4 for r in o["out"]]
+    pf4 = []
+    for i, (sc4, io4) in enumerate(zip(scs4, i4)):
+        for key, desc, det in propcheck.c03(sc4, io4):
+            pf4.append((i, key, desc, det))
+    ck.family("simulation_transactions_sent_in_instalments", len(scs4), len(scs4), [], sorted({i for i, *_ in pf4}),
+              dist={"packages": sum(len(io["packages"]) for io in i4), "requests": sum(len(io["requests"]) for io in i4), "runs_aborted_by_impl": sum(1 for io in i4 if io["error"])})
+    seen4 = set()
+    for i, key, desc, det in pf4:
+        if key not in seen4:
+            seen4.add(key)
+            ck.fail(key, desc, {"scenario": scs4[i], "detail": det, "how": "harness/impl/simlib.py (txn_begin / txn_exec / txn_end actions) on the real FlumineSimulation"})
     scs3 = [c04.race_scenario(rng) for _ in range(600 if thorough else 150)]
     simcheck.run_family(ck, "simulation_requests_in_flight_races", scs3, propcheck.c03, "C03", "race")
     return ck.finish("live: random histories and fault enumeration on the real BetfairOrder guards / BetfairExecution handlers / process_current_orders with a consistent exchange double (delayed responses, exchange-side fills and lapses, snapshots, restarts), every step compared with the Coq live model; status logs checked against the documented lifecycle, rejected requests for an error without side effects, one operation in flight, finality.  simulation: whole-loop scenarios and latency-window races compared with the simulation model; the same transition / guard / finality checker on the orders' status logs and request records")
